@@ -1444,7 +1444,7 @@ theorem lits_sublist_render (cfg : MarkerCfg) (ps : List Patch) : ∀ segs, (lit
   | nil => exact List.Sublist.refl _
   | cons sg r ih =>
     cases sg with
-    | lit c => simp only [render, lits]; exact ih.cons₂ c
+    | lit c => simp only [render, lits]; exact ih.cons_cons c
     | chunk k => simp only [render, lits]; exact ih.trans (List.sublist_append_right _ _)
 
 end FileManager
